@@ -22,3 +22,5 @@ func Setup() {
 }
 
 func stackNow() []byte { return debug.Stack() }
+
+func panicSiteNow() string { return vf.PanicSite(debug.Stack()) }
